@@ -10,7 +10,7 @@ CHECK = {
     "manifest": {
         "engine": "ENUM",
         "technique": "bounded-exhaustive enumeration against a reference model over real loopback HTTP",
-        "text": "Every RawHTTPResponse / RawHTTPRequest definition of a finite alphabet (status {unset,200,204,404,500}; 0-2 headers and trailers with 1-2 values incl. repeated names; body none | one message (unset/text/binary/binary_message x 7 compression values) | stream of 0-2 items with flags {0,1,2,128,255}, length unset or explicit, payload absent or present x compression; verbs, URIs, raw and encoded (+-base64) query parameters) is pushed through the real encoders, the real rawResponder middleware under every short adversarial handler script (set header / WriteHeader / Write / Flush / set trailer before or after choosing the raw response) and the real rawRequestSender, over HTTP/1.1, HTTP/2 (TLS) and h2c, and what a plain net/http peer receives is compared with the definition by an independent decoder.",
+        "text": "Every RawHTTPResponse / RawHTTPRequest definition of a finite alphabet (status {unset,200,204,404,500}; header and trailer lists of 0-3 entries with 1-2 values, incl. lists that name the same header / trailer in two entries (identical spelling or differing only in case, adjacent or around another entry, the same entry twice), for which every given value is demanded in list order; body none | one message (unset/text/binary/binary_message x 7 compression values) | stream of 0-2 items with flags {0,1,2,128,255}, length unset or explicit, payload absent or present x compression; verbs, URIs, raw and encoded (+-base64) query parameters) is pushed through the real encoders, the real rawResponder middleware under every short adversarial handler script (set header / WriteHeader / Write / Flush / set trailer before or after choosing the raw response) and the real rawRequestSender, over HTTP/1.1, HTTP/2 (TLS) and h2c, and what a plain net/http peer receives is compared with the definition by an independent decoder.",
         "note": "Bodies are compared by decoding (envelope parse + decompression with the defining libraries), not byte-for-byte with a second encoder, because compressed bytes are not canonical. Host/Content-Length/Transfer-Encoding headers are outside the alphabet (owned by net/http).",
         "design_ref": "DESIGN.md §2.2, §4 C17",
     },
